@@ -53,6 +53,7 @@ structure G where
 structure Srv where
   key : Option Val := none
   alive : List Nat := []        -- liveness keys that exist
+  started : List Nat := []      -- clients that already have an id (`c.id != ""`): keepalive does nothing for them
   seen : List Val := []         -- ghost: every value ever stored in the key or produced by a loader
   loads : Nat := 0              -- ghost: loader invocations
   deriving Repr, DecidableEq
@@ -73,6 +74,10 @@ def setkey (id : Nat) (v : Val) (k : Option Val) : Option Val × Bool :=
 def delkey (id : Nat) (k : Option Val) : Option Val × Bool :=
   if k = some (.ph id) then (none, true) else (k, false)
 
+def keepalive (s : Srv) (id : Nat) : Srv :=
+  if id ∈ s.started then s
+  else { s with started := id :: s.started, alive := if id ∈ s.alive then s.alive else id :: s.alive }
+
 /-! ### one step of one Get (one server round trip, or the loader finishing) -/
 
 /-- `load` is what the loader returns when this step is the end of a loader run (`none` = error) -/
@@ -84,8 +89,9 @@ def gstepLive (s : Srv) (g : G) (load : Option Val) : Srv × G :=
     | some (.value x) => (s, { g with pc := .done (.ok (.value x)), wKey := false })
     | some (.ph i) => (s, { g with pc := .checkHolder i, wKey := false })
   | .locking =>
-    -- keepalive: SET id "" PX clientTTL (if the client has no id yet), then the lock attempt
-    let s1 := { s with alive := if g.id ∈ s.alive then s.alive else g.id :: s.alive }
+    -- keepalive: SET id "" PX clientTTL only if the client has no id yet; a client whose liveness
+    -- key expired does not notice (only the refresh goroutine re-creates it); then the lock attempt
+    let s1 := keepalive s g.id
     match acquire g.id s1.key with
     | (k', none) => ({ s1 with key := k', loads := s1.loads + 1 }, { g with pc := .loading })
     | (_, some (.value x)) => (s1, { g with pc := .done (.ok (.value x)) })
@@ -116,7 +122,7 @@ def gstepCancelled (s : Srv) (g : G) (load : Option Val) : Srv × G :=
   match g.pc with
   | .start => (s, { g with pc := .done .err })
   | .locking =>
-    ({ s with alive := if g.id ∈ s.alive then s.alive else g.id :: s.alive }, { g with pc := .done .err })
+    (keepalive s g.id, { g with pc := .done .err })
   | .loading =>
     match load with
     | some v => ({ s with seen := v :: s.seen }, { g with pc := .storing v })
